@@ -447,6 +447,59 @@ theorem D45_stale_cell :
 
 theorem D45_fixed : (xreload w45 (in45 { d45 := true })).1.heap[6]? = some (.cell 9) := by decide
 
+
+/-! ### the hypotheses of the theorems above are satisfiable by non-trivial inputs -/
+
+/-- `C16_rollback`: a failure at statement 1 after the scratch module and one function were allocated, on the
+    two-class heap; the conclusion instantiated -/
+example :
+    let i : ReloadIn := { in18 {} with outcome := .fail 1 [.module 6, .dict []] }
+    (xreload w18 i).1.sysmods = w18.sysmods ∧ (xreload w18 i).1.heap[3]? = w18.heap[3]? :=
+  let i : ReloadIn := { in18 {} with outcome := .fail 1 [.module 6, .dict []] }
+  ⟨(C16_rollback w18 i 1 _ rfl rfl).2.1, (C16_rollback w18 i 1 _ rfl rfl).2.2 3 (by decide)⟩
+
+/-- `C16_rollback` also when the module is absent from the registry -/
+example : (xreload { w18 with sysmods := [] } { in18 {} with outcome := .fail 0 [] }).1.sysmods = [] :=
+  (C16_rollback { w18 with sysmods := [] } { in18 {} with outcome := .fail 0 [] } 0 [] rfl rfl).2.1
+
+/-- `C16_names`: all hypotheses hold for the two-class reload (old namespace object 1, scratch namespace object 6) -/
+example :
+    (w18.heap ++ new18)[(in18 {}).module]? = some (.module 1) ∧ (w18.heap ++ new18)[w18.heap.length]? = some (.module 6) ∧
+    (w18.heap ++ new18)[1]? = some (.dict [(sC, 2), (sD, 3)]) ∧ (w18.heap ++ new18)[6]? = some (.dict [(sC, 7), (sD, 8)]) ∧
+    okIs (xreload w18 (in18 {})).2 0 = true := by decide
+
+def isOk (r : Except Err (Id × St)) : Bool := match r with | .ok _ => true | .error _ => false
+
+/-- `C16_function`: a direct `livepatch(old_func, new_func, modname)` on the closure heap — both branches occur -/
+example :
+    isOk (lp { modname := some sM, sysmods := [] } 20 false [] 2 8 { heap := w17.heap ++ new17 ['1'], cache := [] }) = true ∧
+    funcCompat (w17.heap ++ new17 ['1']) 2 8 = true ∧ patchable { modname := some sM, sysmods := [] } (some sM) (some sM) = true ∧
+    isOk (lp { modname := some sM, sysmods := [] } 20 false [] 2 8 { heap := w17.heap ++ new17 ['2'], cache := [] }) = true ∧
+    funcCompat (w17.heap ++ new17 ['2']) 2 8 = false := by decide
+
+/-- `C16_class`: a direct `livepatch(old_D, new_D, modname)` on the two-class heap, slots equal -/
+example :
+    isOk (lp { modname := some sM, sysmods := [] } 20 false [] 3 8 { heap := w18.heap ++ new18, cache := [] }) = true ∧
+    optValEq (w18.heap ++ new18) (alookup slotsKey [(docKey, 4)]) (alookup slotsKey [(docKey, 4)]) = true := by decide
+
 end Witness
+
+
+/-! ## Not proved: observational equality with a fresh import
+
+Target (full strength, kept as a comment):
+
+    C16_obs : for every old heap and scratch module, after a successful `xreload` the old namespace is bisimilar to the
+              scratch namespace (same names; per name the two objects have equal labels — code/defaults/doc/name, atom
+              values — and pairwise bisimilar children: function dicts and cell contents, class attributes and bases,
+              dict entries, instance state).
+
+It is false of the code as found (witnesses above: D18, D45; further families D42–D52 in known_findings/C16.json) and it
+needs, beyond the frame theorem `lp_frame` (which protects the objects *on the visit stack*), a footprint lemma — that a
+call `livepatch(o, n)` writes only objects reachable from `o` — plus the hypothesis that the pairing of old and new objects
+along equal paths is one-to-one (D46).  What is proved instead are the per-object consequences the property names:
+`C16_names` (names), `C16_function` (identity and code/defaults/doc), `C16_class` (identity, attribute names, bases),
+`lp_dict_keys` (dict keys).  Observational equality itself is evaluated by the direct oracle of harness/c16.py on every
+generated pair, against a real fresh import. -/
 
 end Pfb.C16
